@@ -1346,8 +1346,8 @@ pub fn spec() -> PropSpec {
             Family { name: "extreme-transport-parameters", f: fam_params, weight: 20 },
             Family { name: "pending-incoming", f: fam_pending, weight: 10 },
         ],
-        quick_worlds: 40_000,
-        thorough_worlds: 600_000,
+        quick_worlds: 80_000,
+        thorough_worlds: 1_200_000,
         panic_is_violation: true,
         rule: "each world = a server endpoint with two honest clients and one hostile peer that (a) has grammar-generated, boundary-biased frame sequences written into its correctly protected packets (1-RTT replace/overlay, Initial/Handshake overlay), (b) sends one RFC-pinned illegal frame, (c) injects arbitrary / structurally mutated datagrams, (d) floods ~10^5 small frames, or (e) announces extreme but well-formed transport parameters; non-trivial = an injection fired; distinct = distinct abstract-event signature",
         assumptions: vec![
